@@ -402,7 +402,7 @@ class Mesh:
 
     def interior_nodes(self) -> ndarray:
         """Return an array of interior node indices."""
-        return np.setdiff1d(np.arange(0, self.p.shape[1]),
+        return np.setdiff1d(np.arange(0, self.nvertices),
                             self.boundary_nodes())
 
     def nodes_satisfying(self,
